@@ -18,6 +18,20 @@ Theorem C09_command_words : forall known r,
 Proof. exact command_words. Qed.
 Print Assumptions C09_command_words.
 
+(* the block printed in a failure report (four spaces in front of the first line only) still splits into exactly
+   the intended argument vector, also for payloads with line breaks; indenting every line would not *)
+Theorem C09_report_block_words : forall known r,
+  safe_word (method r) = true -> req_no_nul known r = true ->
+  sh_words (report_block known r) = Some (argv_of known r).
+Proof. exact report_block_words. Qed.
+Print Assumptions C09_report_block_words.
+
+Theorem C09_report_block_indent_all_refuted : exists known r,
+  sh_words (report_block_indent_all known r) <> Some (argv_of known r) /\
+  sh_words (report_block known r) = Some (argv_of known r).
+Proof. exists [], r_multiline. exact report_block_indent_all_refuted. Qed.
+Print Assumptions C09_report_block_indent_all_refuted.
+
 (* curl, given that argument vector, re-sends the visible part of the request *)
 Theorem C09_reproduces_partial : forall known r,
   header_names_ok known r = true -> no_empty_header_value known r = true ->
